@@ -404,10 +404,11 @@ func evaluateFunctionValue(node *ExprNode, data map[string]any) (any, error) {
 		return nil, fmt.Errorf("unknown function: %s", node.Value)
 	}
 
-	// Calculate all arguments but keep original types
+	// Calculate all arguments but keep original types. A column that the row
+	// does not carry is NULL and reaches the function as nil.
 	args := make([]any, len(node.Args))
 	for i, arg := range node.Args {
-		val, err := evaluateNodeValue(arg, data)
+		val, _, err := evaluateNodeValueWithNull(arg, data)
 		if err != nil {
 			return nil, err
 		}
@@ -906,6 +907,88 @@ func evaluateBoolOperator(node *ExprNode, data map[string]any) (bool, error) {
 	default:
 		return false, fmt.Errorf("unsupported boolean operator: %s", operator)
 	}
+}
+
+// evaluateConditionWithNull evaluates a condition with SQL three-valued logic.
+// It returns (value, isNull): a comparison with a NULL or missing operand is NULL,
+// AND/OR/NOT combine NULL the SQL way (FALSE AND NULL = FALSE, TRUE OR NULL = TRUE,
+// NOT NULL = NULL). value is false whenever isNull is true.
+func evaluateConditionWithNull(node *ExprNode, data map[string]any) (bool, bool, error) {
+	if node == nil {
+		return false, true, nil
+	}
+	if node.Type == TypeParenthesis {
+		return evaluateConditionWithNull(node.Left, data)
+	}
+	if node.Type == TypeOperator {
+		operator := strings.ToUpper(node.Value)
+		switch operator {
+		case "AND", "&&", "OR", "||":
+			isAnd := operator == "AND" || operator == "&&"
+			left, leftIsNull, err := evaluateConditionWithNull(node.Left, data)
+			if err != nil {
+				return false, false, err
+			}
+			// Short-circuit: FALSE AND x = FALSE, TRUE OR x = TRUE
+			if !leftIsNull && left != isAnd {
+				return left, false, nil
+			}
+			right, rightIsNull, err := evaluateConditionWithNull(node.Right, data)
+			if err != nil {
+				return false, false, err
+			}
+			if !rightIsNull && right != isAnd {
+				return right, false, nil
+			}
+			if leftIsNull || rightIsNull {
+				return false, true, nil
+			}
+			return isAnd, false, nil
+
+		case "NOT", "!":
+			operand := node.Left
+			if operand == nil {
+				operand = node.Right
+			}
+			result, isNull, err := evaluateConditionWithNull(operand, data)
+			if err != nil || isNull {
+				return false, isNull, err
+			}
+			return !result, false, nil
+
+		case "IS", "IS NOT":
+			result, err := evaluateIsOperator(node, data)
+			if err != nil {
+				return false, false, err
+			}
+			return convertToBool(result), false, nil
+
+		case "==", "=", "!=", "<>", ">", "<", ">=", "<=", "LIKE":
+			leftValue, _, err := evaluateNodeValueWithNull(node.Left, data)
+			if err != nil {
+				return false, false, err
+			}
+			rightValue, _, err := evaluateNodeValueWithNull(node.Right, data)
+			if err != nil {
+				return false, false, err
+			}
+			if leftValue == nil || rightValue == nil {
+				return false, true, nil
+			}
+			result, err := compareValues(leftValue, rightValue, operator)
+			return result, false, err
+		}
+	}
+
+	// Any other node (column, literal, function call, CASE, arithmetic): truthiness of its value
+	value, isNull, err := evaluateNodeValueWithNull(node, data)
+	if err != nil {
+		return false, false, err
+	}
+	if isNull || value == nil {
+		return false, true, nil
+	}
+	return convertToBool(value), false, nil
 }
 
 // evaluateBoolFunction evaluates boolean functions
